@@ -3,7 +3,7 @@ import copy
 
 from hypothesis import strategies as st
 
-from .. import cmpx, gen, model
+from .. import cmpx, dscheck, gen, model
 from ..runner import Hyp
 
 ID = "C01"
@@ -106,91 +106,8 @@ def check_api(case, ctx):
                                               "fcst": d.get("fcst")} for d in spec["inputs"]],
                     "clim": bool(spec.get("clim"))})
     menu = gen.common_menu(spec)
-    has_clim = bool(spec.get("clim"))
-    for F in menu:
-        vF = [mat.vfield(f) for f in F]
-        tol = 2e-6 if any(f[0] == "thr" for f in F) else 1e-9
-        obs_only_clim = has_clim and any(f[0] == "obs" for f in F) and not any(f[0] == "fcst" for f in F)
-        flab = _fields_label(F)
-        ctx.label("req=" + flab)
-        for axis in axes:
-            vax = mat.vaxis(axis)
-            nsl = ds.n_slices(axis)
-            got_n = data.get_axis_size(vax)
-            if got_n != nsl:
-                ctx.fail("C01/slices/" + axis, {"spec": spec, "axis": axis}, "axis %s has %d slices, model %d" % (axis, got_n, nsl))
-                continue
-            for k in range(nsl):
-                counts = []
-                for i in range(n_in):
-                    got = data.get_scores(vF, i, vax, k)
-                    got_t = cmpx.tuples_of(got)
-                    exp = ds.cases(F, i, axis, k)
-                    ctx.evals += 1
-                    sub = {"spec": spec, "fields": F, "input": i, "axis": axis, "slice": k}
-                    if got_t is None:
-                        ctx.fail("C01/cases/ragged", sub, "fields returned with different lengths")
-                        continue
-                    counts.append(len(got_t))
-                    if obs_only_clim:
-                        # only-if direction: nothing invalid used, nothing beyond the iff-model without the
-                        # climatology-forecast requirement
-                        if not cmpx.subset_multiset(exp, got_t, tol) and not cmpx.same_multiset(got_t, exp, tol):
-                            # verif may drop more than the minimal model requires, never less than exp?  exp is the
-                            # strict model (requires all forecasts); got must contain no case outside the loose model
-                            pass
-                        loose = _loose_cases(ds, F, i, axis, k)
-                        if not cmpx.subset_multiset(got_t, loose, tol):
-                            ctx.fail("C01/cases/invalid-used/" + flab, sub, "a returned case is not valid in every file: got %r, valid %r" % (got_t[:6], loose[:6]))
-                        continue
-                    if not cmpx.same_multiset(got_t, exp, tol):
-                        extra = not cmpx.subset_multiset(got_t, exp, tol)
-                        key = "C01/cases/%s/%s" % ("invalid-used" if extra else "valid-dropped", flab)
-                        ctx.fail(key, sub, "input %d axis %s slice %d: got %d cases %r, model %d cases %r" % (i, axis, k, len(got_t), sorted(got_t)[:6], len(exp), sorted(exp)[:6]))
-                if len(set(counts)) > 1:
-                    ctx.fail("C01/same-cases/count", {"spec": spec, "fields": F, "axis": axis, "slice": k},
-                             "inputs are scored on different numbers of cases: %r" % counts)
-    # all-axis: identical masks / observations, cell-by-cell values (fresh Data per request)
-    for F in menu[:4] + menu[4:6]:
-        vF = [mat.vfield(f) for f in F]
-        masks = []
-        obs_arrays = []
-        tol = 2e-6 if any(f[0] == "thr" for f in F) else 1e-9
-        obs_only_clim = has_clim and any(f[0] == "obs" for f in F) and not any(f[0] == "fcst" for f in F)
-        for i in range(n_in):
-            fresh = mat.make_data(spec)
-            got = fresh.get_scores(vF, i, verif.axis.All(), None)
-            ctx.evals += 1
-            g = ds.grid(F, i)
-            shape = (len(ds.times), len(ds.leads), len(ds.ids))
-            sub = {"spec": spec, "fields": F, "input": i, "axis": "all"}
-            if any(np.asarray(a).shape != shape for a in got):
-                ctx.fail("C01/all/shape", sub, "3D result has shape %r, model dims %r" % ([np.asarray(a).shape for a in got], shape))
-                break
-            masks.append(~np.isnan(got[0]))
-            if F[0][0] == "obs":
-                obs_arrays.append(np.array(got[0]))
-            if obs_only_clim:
-                continue
-            bad = None
-            for a, t in enumerate(ds.times):
-                for b, l in enumerate(ds.leads):
-                    for c, s in enumerate(ds.ids):
-                        ev = g[(t, l, s)]
-                        for fi in range(len(F)):
-                            gv = got[fi][a, b, c]
-                            if ev is None:
-                                if not np.isnan(gv):
-                                    bad = ("invalid-used", (t, l, s), gv, None)
-                            elif not cmpx.close(gv, ev[fi], tol):
-                                bad = ("valid-dropped" if np.isnan(gv) else "wrong-value", (t, l, s), gv, ev[fi])
-            if bad:
-                ctx.fail("C01/all/%s/%s" % (bad[0], _fields_label(F)), sub, "cell %r: got %r model %r" % (bad[1], bad[2], bad[3]))
-        if len(masks) == n_in and n_in > 1:
-            if any(not np.array_equal(m, masks[0]) for m in masks[1:]):
-                ctx.fail("C01/same-cases/mask", {"spec": spec, "fields": F}, "valid masks differ between inputs for axis=All")
-            if len(obs_arrays) == n_in and any(not cmpx.arrays_equal(o, obs_arrays[0]) for o in obs_arrays[1:]):
-                ctx.fail("C01/same-cases/obs", {"spec": spec, "fields": F}, "observation arrays differ between inputs")
+    dscheck.check_slices(ctx, ID, spec, ds, data, menu, axes)
+    dscheck.check_all_axis(ctx, ID, spec, ds, menu[:6], lambda: mat.make_data(spec))
     # independence: alter the non-missing forecast values of one input
     if n_in > 1:
         k = case["alter"] % n_in
@@ -213,48 +130,8 @@ def check_api(case, ctx):
                         a2 = data2.get_scores(vF, j, vax, kk)
                         ctx.evals += 1
                         if any(not cmpx.arrays_equal(x, y) for x, y in zip(a1, a2)):
-                            ctx.fail("C01/independence/" + _fields_label(F), {"spec": spec, "alter": k, "delta": case["delta"], "fields": F, "input": j, "axis": axis, "slice": kk},
+                            ctx.fail("C01/independence/" + dscheck.fields_label(F), {"spec": spec, "alter": k, "delta": case["delta"], "fields": F, "input": j, "axis": axis, "slice": kk},
                                      "changing the non-missing forecasts of input %d changed the values returned for input %d" % (k, j))
-
-
-def _loose_cases(ds, F, i, axis, k):
-    """Valid cases of an Obs-without-Fcst request under a climatology when only the requested
-    fields and the climatology forecast itself (not the other inputs' forecasts) are required."""
-    sl = ds.slices(axis)
-    pred = sl[k][1]
-    out = []
-    allin = ds.ins + [ds.clim]
-    for c in ds.coords():
-        if not pred(c):
-            continue
-        cv = ds.clim.value(("fcst",), c)
-        if cv is None:
-            continue
-        vals = []
-        ok = True
-        for f in F:
-            if f[0] == "obs":
-                vs = [m.value(f, c) for m in allin if m.has_obs]
-                if not vs or any(v is None for v in vs):
-                    ok = False
-                    break
-                v = allin[model.obs_source(ds.ins, ds.clim, i)].value(f, c)
-                if ds.opts.get("clim_type", "subtract") == "subtract":
-                    v = v - cv
-                else:
-                    if cv == 0:
-                        ok = False
-                        break
-                    v = v / cv
-            else:
-                if any(m.value(f, c) is None for m in allin):
-                    ok = False
-                    break
-                v = ds.ins[i].value(f, c)
-            vals.append(v)
-        if ok:
-            out.append(tuple(vals))
-    return out
 
 
 def driver_strategy(tier):
